@@ -2,6 +2,7 @@
 """Correspondence check + violation search for the restart file (property C18, Lean model `Sympler.Restart`).
 
 usage: corr_restart.py <seed> <ncases> [--keep DIR] [--sympler BIN] [--verbose]
+       corr_restart.py --replay scenario.json [--keep DIR]
        (symdrv path from env SYMDRV, default /verif/lean/.lake/build/bin/symdrv)
 
 For every generated particle system (1-3 species in random order, possibly a species without particles, free and
@@ -27,6 +28,10 @@ token is reported; (2) the system the model reader reconstructs from its text wi
 status, and every value `x_B == float(model decimal)` exactly, non-persistent attributes not compared (B's
 calculators/forces own them).
 
+Disagreement kinds (= `signature`): `oracle` (A vs B), `text`, `model_vs_B`, `model`, `runfail`, and the classified
+finding `boundary-loss` (B lost exactly the particles whose WRITTEN position has a coordinate >= the upper box bound --
+`createParticles` drops them silently through `findCell`/`isInside`; the remaining particles are still compared).
+`force_<q>_<k>` accumulators are columns of the file but are zeroed by every run (`isAboutToStart`): values not compared.
 Prints a JSON summary; exit status 1 on any disagreement / oracle violation.
 """
 import sys, os, json, random, subprocess, shutil, glob
@@ -79,13 +84,19 @@ def gen_case(rng):
     quantities = {s: [] for s in names}        # per species: (name, kind) in tag-format order
     modules = []
     forces = []
-    for s in names:
-        if rng.random() < 0.8:
-            integrators.append(['IntegratorVelocityVerlet', {'species': s, 'lambda': '1/2', 'mass': '1'}])
+    # which species get particles (a species is created by its integrators; a position integrator needs free particles)
+    empty = rng.choice(names) if (len(names) > 1 and rng.random() < 0.2) else None
+    npart = rng.randint(1, 9)
+    pspecies = [rng.choice([n for n in names if n != empty]) for _ in range(npart)]
+    pfrozen = [rng.random() < 0.35 for _ in range(npart)]
+    has_free = {s: any(ps == s and not fz for ps, fz in zip(pspecies, pfrozen)) for s in names}
     qn = 0
     specs = []
     for s in names:
-        for kind in rng.sample(['S', 'V', 'T', 'S', 'V'], rng.randint(0, 4)):
+        vv = has_free[s] and rng.random() < 0.8
+        if vv:
+            integrators.append(['IntegratorVelocityVerlet', {'species': s, 'lambda': '1/2', 'mass': '1'}])
+        for kind in rng.sample(['S', 'V', 'T', 'S', 'V'], rng.randint(0 if vv else 1, 4)):
             qn += 1
             nm = {'S': 'e', 'V': 'w', 'T': 'T'}[kind] + str(qn)
             specs.append((s, kind, nm))
@@ -107,18 +118,14 @@ def gen_case(rng):
             if ig[0] != 'IntegratorVelocityVerlet' and key in ig[1]:
                 quantities[ig[1]['species']].append((ig[1][key], kind))
     # particles
-    empty = rng.choice(names) if (len(names) > 1 and rng.random() < 0.2) else None
-    npart = rng.randint(1, 9)
     particles = []
     used = set()
-    for _ in range(npart):
-        s = rng.choice([n for n in names if n != empty])
+    for s, frozen in zip(pspecies, pfrozen):
         while True:
             r = tuple(F(rng.randint(1, 31), 8) for _ in range(3))
             if r not in used:
                 used.add(r)
                 break
-        frozen = rng.random() < 0.35
         v = [F(rng.randint(-8, 8), 4) for _ in range(3)]
         tags = {}
         for (nm, kind) in quantities[s]:
@@ -152,6 +159,12 @@ def gen_case(rng):
     return sc, dict(steps=steps, every=every, names=names, quantities=quantities)
 
 # ------------------------------------------------------------------ dumps
+
+def internal(name):
+    """`force_<quantity>_<k>`: the force accumulators of Integrator{Scalar,Vector,Tensor}.  They are flagged persistent
+    in turn (the one of the current force index), are columns of the file, and every run zeroes them again in
+    `Integrator*::isAboutToStart` -- not user-defined quantities: their VALUES are not compared with run B."""
+    return name.startswith('force_')
 
 def grouped(step):
     """particles of a dump step per (species name, frozen) in dump (= list) order"""
@@ -192,7 +205,7 @@ def oracle(sa, sb, stats):
                 check_value(pa['r'][j], pb['r'][j], 8, w + ' r[%d]' % j, viol, stats)
                 check_value(pa['v'][j], pb['v'][j], 8, w + ' v[%d]' % j, viol, stats)
             for name, (ty, pers, va) in pa['tag'].items():
-                if not pers:
+                if not pers or internal(name):
                     continue
                 if name not in pb['tag']:
                     viol.append('%s: attribute %s missing in B' % (w, name))
@@ -304,7 +317,7 @@ def compare_model_b(m, sa, sb, stats):
                     if F(float(pm[nm][j])) != pb[nm][j]:
                         dis.append('%s %s[%d]: model %s B %r' % (w, nm, j, pm[nm][j], float(pb[nm][j])))
             for name, (ty, pers, _) in pa['tag'].items():
-                if not pers:
+                if not pers or internal(name):
                     continue
                 tm, vm = pm['tags'][name]
                 tb, _, vb = pb['tag'][name]
@@ -353,6 +366,7 @@ def run_case(d, sc, meta, stats, verbose=False):
             continue
         stats['files'] += 1
         sa = steps_a[step]
+        sa_full = sa
         stats['particles'] += len(sa['particles'])
         real_lines = open(path).read().split('\n')
         if real_lines and real_lines[-1] == '':
@@ -369,14 +383,28 @@ def run_case(d, sc, meta, stats, verbose=False):
             out.append(('oracle', '%s: run B fails rc=%d: %s' % (label, rc, log[-300:].replace('\n', ' / '))))
             continue
         sb = [s for s in symlib.parse_obs(os.path.join(db, 'obs.txt')) if s['step'] == -1][0]
+        # FINDING `boundary-loss`: the reader drops a particle whose written coordinate is >= the upper box bound
+        # (`isInside`/`findCell`), although run A holds it: exactly on the bound, or rounded up to it by the 8 digits.
+        hi = sa['box'][1]
+        onb = [p for p in sa['particles'] if any(round_dec(p['r'][j], 8)[0] >= hi[j] for j in range(3))]
+        if onb and len(sb['particles']) == len(sa['particles']) - len(onb):
+            out.append(('boundary-loss', '%s (step %d): %d of %d particles lost by the restart: written coordinate equals the box length: %s'
+                        % (label, step, len(onb), len(sa['particles']),
+                           [(sa['species'][p['colour']], 'frozen' if p['frozen'] else 'free', [float(x) for x in p['r']]) for p in onb])))
+            stats['boundary_lost'] += len(onb)
+            sa = dict(sa, particles=[p for p in sa['particles'] if not any(p is q for q in onb)])
         for v in oracle(sa, sb, stats):
             out.append(('oracle', '%s (step %d): %s' % (label, step, v)))
-        inp = model_input(sa, header_names(real_lines))
+        inp = model_input(sa_full, header_names(real_lines))
         open(os.path.join(db, 'model.in'), 'w').write(inp)
         m, err = run_model(inp)
         if err:
             out.append(('model', '%s: %s' % (label, err)))
             continue
+        if onb and len(m['recs']) == len(sb['particles']) + len(onb):
+            # `isInside` is not part of the model: remove the records of the dropped particles (same written position)
+            drop = [[round_dec(x, 8)[0] for x in p['r']] for p in onb]
+            m['recs'] = [r for r in m['recs'] if r['r'] not in drop]
         for v in compare_text(real_lines, m['text']):
             out.append(('text', '%s (step %d): %s' % (label, step, v)))
         for v in compare_model_b(m, sa, sb, stats):
@@ -385,14 +413,28 @@ def run_case(d, sc, meta, stats, verbose=False):
 
 def main(argv):
     global SYMPLER
-    seed, ncases = int(argv[1]), int(argv[2])
     keep = argv[argv.index('--keep') + 1] if '--keep' in argv else None
+    if '--replay' in argv:
+        # corr_restart.py --replay scenario.json [--keep DIR]: run one stored system
+        sc = json.load(open(argv[argv.index('--replay') + 1]))
+        wr = [m for m in sc['modules'] if m[0] == 'WriteRestartFile']
+        meta = dict(steps=int(sc['controller']['timesteps']), every=int(wr[0][1]['writeEvery']) if wr else 10 ** 9)
+        stats = dict(files=0, particles=0, values_exact=0, values_inexact=0, model_values=0, boundary_lost=0)
+        d = keep or '/verif/.work/corr_restart_replay_%d' % os.getpid()
+        shutil.rmtree(d, ignore_errors=True)
+        res = run_case(d, sc, meta, stats)
+        print(json.dumps(dict(check='corr_restart', replay=True, **stats, disagreements=len(res),
+                              first=[dict(kind=k, signature=k, msg=m) for k, m in res[:10]]), indent=1))
+        if not keep:
+            shutil.rmtree(d, ignore_errors=True)
+        return 1 if res else 0
+    seed, ncases = int(argv[1]), int(argv[2])
     if '--sympler' in argv:
         SYMPLER = argv[argv.index('--sympler') + 1]
     verbose = '--verbose' in argv
     base = keep or ('/verif/.work/corr_restart_%d_%d' % (seed, os.getpid()))
     rng = random.Random(seed)
-    stats = dict(files=0, particles=0, values_exact=0, values_inexact=0, model_values=0)
+    stats = dict(files=0, particles=0, values_exact=0, values_inexact=0, model_values=0, boundary_lost=0)
     dis = []
     for i in range(ncases):
         sc, meta = gen_case(rng)
@@ -403,7 +445,7 @@ def main(argv):
         json.dump(sc, open(os.path.join(d, 'scenario.json'), 'w'), indent=1)
         res = run_case(d, sc, meta, stats, verbose)
         for kind, msg in res:
-            dis.append(dict(case=i, kind=kind, msg=msg))
+            dis.append(dict(case=i, kind=kind, signature=kind, msg=msg, scenario=os.path.join(d, 'scenario.json')))
         if verbose:
             print('case %d: %d species, %d particles, %d steps, every %d: %s' % (i, len(meta['names']), len(sc['particles']), meta['steps'], meta['every'], 'ok' if not res else res[:3]), file=sys.stderr)
         if not res and not keep:
